@@ -26,13 +26,22 @@ def run(chk):
         return
     compilers.name_lookup_correspondence(chk, rng, 400 if quick else 6000)
     compilers.core_correspondence(chk, rng, 250 if quick else 6000, dialects=("cl21", "strict21"))
+    # Layer B2: core + defun-inline (destructuring parameters) + let/let*: model bytes == real compiler bytes
+    # (two strata: inline functions only; inline functions + let/let* with shadowing)
+    compilers.core2_correspondence(chk, rng, 100 if quick else 1500, dialects=("cl21", "strict21"),
+                                   features=compilers.CORE2_INLINES, label="core2-inlines")
+    compilers.core2_correspondence(chk, rng, 100 if quick else 1500, dialects=("cl21", "strict21"),
+                                   features=compilers.CORE2_DENSE, label="core2-lets")
+    compilers.quoted_name_probe(chk, rng)
     n = 80 if quick else 3000
     for d in progen.MODERN:
         progs = compilers.gen_programs(rng, d, n, nargs=3)
         compilers.differential(chk, "C01", progs, entries=["text:O0", "text:O1"], label=d)
     chk.cov["modelled_not_verified"] = [
-        "the compiler pipeline beyond the environment/path algebra (frontend, rename, inline, lambda, let hoisting, "
-        "codegen, optimisers) is not covered by a theorem; it is compared with the Lean source semantics on generated programs",
+        "outside the byte-tied, kernel-checked compiler models (Layer B `Core.compileCore`: functions; Layer B2 "
+        "`Core2.compileCore2`: + inline functions with destructuring parameters + let/let* with shadowing; dialects cl21 and "
+        "strict-cl21, non-optimising) the compiler pipeline (assign, lambda, &rest calls, constants, macros, cl22+ code "
+        "generators, optimisers) is not covered by a theorem; it is compared with the Lean source semantics on generated programs",
         "user-written defmacro bodies other than qq templates, embed/include files, nested mod: not generated here",
     ]
     chk.assumptions.append("Lang.evalSrc (lean/ChialispModel/Lang/Sem.lean) is the statement of the language's call-by-value meaning")
